@@ -24,6 +24,9 @@ tie:   2-4 real tasks enter/leave guarded sections through Cache.lock, @cache.lo
        all_keys_lower) installed with setup(middlewares=...) must not change the protocol; locked async generators are consumed by
        draining, aclose(), aclosing, or are dropped, with consumer-side pauses (release at the yield point); ttls are written as
        timedelta (with fractions of a second) / int / strings and the backend must receive the denoted duration.
+       Exits: bodies end normally, by cancellation, with an application exception, with an exception of EVERY class that
+       cashews/exceptions.py defines, or with other (Base)Exception kinds - also inside @cache(ttl, lock=True) functions;
+       whatever a section ends with, its own identifier must have been unlocked.
 """
 from __future__ import annotations
 
